@@ -263,7 +263,15 @@ def _samplers(spec, ctx):
             for nm in names:
                 s = algo.samplers[nm]
                 indep_before = {k: state._values[k] for k in dag.variables if sh.is_indep(dag, k)}
-                events = probes[nm].sample(state, tinv)
+                try:
+                    events = probes[nm].sample(state, tinv)
+                except Exception as e:
+                    # under adversarial proposal scales a definition may refuse the proposed values (e.g. torch validating NaN probabilities):
+                    # the step aborts inside the library; what the state holds after an exception is outside the statement
+                    ctx.count("sample_call_raised_not_judged")
+                    ctx.note(f"sample_raised_{type(e).__name__}", str(e)[:160])
+                    dead = True
+                    break
                 ctx.count("sampler_calls")
                 ctx.evaluated()
                 exp_val, accs = expected_after(indep_before[nm], nm, events, probes[nm].is_ind)
